@@ -789,6 +789,8 @@ impl Printer<'_> {
                     && self.no_break == 0
                     && self.inline_only == 0
                     && items.iter().all(|x| matches!(x, E::Int(n) if *n >= 0) || matches!(x, E::Id(_) | E::Str(_) | E::Index(..) | E::Dot(..) | E::Bool(_) | E::Null))
+                    // (`a += 1, 2` is the tuple `(a += 1), 2`: not after a compound assignment operator)
+                    && !["+= ", "-= ", "*= ", "/= ", "%= ", "^= "].iter().any(|op| self.out.ends_with(op))
                     && self.layout.pick(2) == 1 =>
             {
                 self.inline_only += 1;
